@@ -12,12 +12,16 @@ JOBQUEUE = {
             {"module": "JobQueue_MC.tla", "cfg": "JobQueue_MC_env.cfg", "timeout": 600},
             {"module": "JobQueue_MC.tla", "cfg": "JobQueue_MC_crash.cfg", "timeout": 600},
             {"module": "JobQueue_MC.tla", "cfg": "JobQueue_MC_indep.cfg", "timeout": 600},
+            {"module": "JobQueue_MC.tla", "cfg": "JobQueue_MC_postpone_small.cfg", "timeout": 600},
+            {"module": "JobQueue_MC.tla", "cfg": "JobQueue_MC_jc.cfg", "timeout": 600},
         ],
         "thorough": [
             {"module": "JobQueue_MC.tla", "cfg": "JobQueue_MC_core.cfg", "timeout": 900},
             {"module": "JobQueue_MC.tla", "cfg": "JobQueue_MC_env.cfg", "timeout": 900},
             {"module": "JobQueue_MC.tla", "cfg": "JobQueue_MC_crash.cfg", "timeout": 1500},
             {"module": "JobQueue_MC.tla", "cfg": "JobQueue_MC_indep.cfg", "timeout": 1500},
+            {"module": "JobQueue_MC.tla", "cfg": "JobQueue_MC_postpone.cfg", "timeout": 1500},
+            {"module": "JobQueue_MC.tla", "cfg": "JobQueue_MC_jc.cfg", "timeout": 1500},
         ],
     },
     "sim": {
@@ -49,12 +53,16 @@ PROPS = {
         "Jobs carrying the JobConfig UID label without an owner reference are outside the modelled input class"]},
     "C06": {"modules": ["jobqueue"], "assumptions": ["FIFO is judged against what the pass saw at its SyncBegin (knowledge lag, DESIGN 3.7)"]},
     "C07": {"modules": ["jobqueue"], "assumptions": ["AddAfter durations are not interpreted: a deferred re-sync may fire at any time once armed"]},
+    "C15": {"modules": ["jobqueue"], "assumptions": [
+        "lastScheduled/lastExecuted must cover Jobs that were in the cache of a jobconfigcontroller pass that ended successfully (DESIGN 3.7: what a status controller can know)",
+        "the JobConfigs of this module have no cron schedule, so the expected idle state is Ready (ReadyEnabled/ReadyDisabled are exercised in the cron module)"]},
 }
 
 FORMULAS = {
     "C05": ["C05_Admission"],
     "C06": ["C06_Fifo", "C06_EnqueueNeverRefused", "C06_AllowNeverRefused", "C06_RefusedOnlyAtLimit", "C06_NoStuck"],
-    "C07": ["C07_NotEarly", "C07_NotEarlyStep", "C07_IndependentStarts"],
+    "C07": ["C07_NotEarly", "C07_NotEarlyStep", "C07_IndependentStarts", "C07_RefusedOnlyWhenDue"],
+    "C15": ["C15_Exact", "C15_Monotone", "C15_Covers"],
 }
 
 
